@@ -305,3 +305,25 @@ def _(self, decoder: Obj("Decoder")) -> Int:
     assigns(decoder)
     ensures(decoder.number_of_bits <= old(decoder.number_of_bits) and decoder.value == old(decoder.value))
     ensures(implies(self.number_of_bits is not None and not self.has_extension_marker, result >= self.minimum))
+
+
+@contract("Enumerated.decode", props=["C05", "C07", "C16", "C08", "C01"])
+def _(self, decoder: Obj("Decoder")):
+    refines("Type.decode")
+    # X.691 14: root: an index of root_number_of_bits bits; extensible: a leading bit, then either the root index or a
+    # normally small number.  C07: an addition this version does not know is consumed exactly like a known one
+    # (nsn_size bits) -- what follows is read from the right position
+    opaque("ld_size", "ld_val", "ld_bad", "nsn_size", "nsn_val")
+    inline("Enumerated.decode_root")
+    requires((self.additions_index_to_data is None) == (self.additions_data_to_index is None))
+    ensures(implies(self.additions_index_to_data is None,
+                    decoder.number_of_bits == old(decoder.number_of_bits) - self.root_number_of_bits))
+    ensures(implies(self.additions_index_to_data is not None
+                    and bits_val(decoder.value[decoder.total_number_of_bits - old(decoder.number_of_bits):
+                                               decoder.total_number_of_bits - old(decoder.number_of_bits) + 1]) == 0,
+                    decoder.number_of_bits == old(decoder.number_of_bits) - 1 - self.root_number_of_bits))
+    ensures(implies(self.additions_index_to_data is not None
+                    and bits_val(decoder.value[decoder.total_number_of_bits - old(decoder.number_of_bits):
+                                               decoder.total_number_of_bits - old(decoder.number_of_bits) + 1]) != 0,
+                    decoder.number_of_bits == old(decoder.number_of_bits) - 1
+                    - nsn_size(decoder.value, decoder.total_number_of_bits - old(decoder.number_of_bits) + 1)))
